@@ -746,3 +746,49 @@ Proof.
   - apply status_etcd; assumption.
   - destruct (Hb eq_refl) as [Ma Me]. rewrite redis_status_as_etcd by assumption. apply status_etcd; assumption.
 Qed.
+
+(* ================================================================== *)
+(* link between the boolean check of the harness and the theorems      *)
+
+Lemma s2l_nil_iff : forall s, s2l s = [] <-> s = EmptyString.
+Proof.
+  intro s. split; intro H.
+  - apply s2l_inj. rewrite H. reflexivity.
+  - subst. reflexivity.
+Qed.
+
+(* the selection used by the boolean check is the theorems' "created under those names" *)
+Lemma created_under_iff : forall app entry node a, a_ok a = true ->
+  (created_under app entry node a = true <->
+   under_names (s2l app) (s2l entry) (s2l node) (names_of a)).
+Proof.
+  intros app entry node a Hok. unfold created_under, under_names, eff, names_of. cbn [nm_app nm_entry nm_node].
+  rewrite Hok. cbn [andb].
+  destruct (s2l app) as [|c1 t1] eqn:Ea.
+  - split; [intros _; eexists; reflexivity | reflexivity].
+  - rewrite andb_true_iff, String.eqb_eq.
+    destruct (s2l entry) as [|c2 t2] eqn:Ee.
+    + split.
+      * intros [<- _]. rewrite Ea. eexists. reflexivity.
+      * intros [r E]. inversion E as [[E1 E2]]. split; [|reflexivity]. apply s2l_inj. rewrite Ea. exact E1.
+    + rewrite andb_true_iff, String.eqb_eq.
+      destruct (s2l node) as [|c3 t3] eqn:En.
+      * split.
+        -- intros [<- [<- _]]. rewrite Ea, Ee. eexists. reflexivity.
+        -- intros [r E]. inversion E as [[E1 E2 E3]]. split; [apply s2l_inj; rewrite Ea; exact E1|].
+           split; [apply s2l_inj; rewrite Ee; exact E2 | reflexivity].
+      * rewrite String.eqb_eq. split.
+        -- intros [<- [<- <-]]. rewrite Ea, Ee, En. exists []. reflexivity.
+        -- intros [r E]. inversion E as [[E1 E2 E3 E4]].
+           split; [apply s2l_inj; rewrite Ea; exact E1|].
+           split; [apply s2l_inj; rewrite Ee; exact E2 | apply s2l_inj; rewrite En; exact E3].
+Qed.
+
+Lemma accepted_safe_all : forall n,
+  (valid_app n = true -> safe_elem n) /\ (valid_node n = true -> safe_elem n) /\
+  (valid_entry n = true -> safe_elem n /\ no_byte underscore n).
+Proof. intro n. split; [apply valid_app_safe | split; [apply valid_node_safe | apply valid_entry_safe]]. Qed.
+
+Lemma processing_created : forall ps, Forall good_proc ps -> NoDup (map p_ident ps) ->
+  build_procs_n [] ps = (map pentry ps, map (fun _ => true) ps).
+Proof. intros ps F ND. exact (build_procs_good ps [] (Forall_nil _) F ND). Qed.
